@@ -261,7 +261,14 @@ impl G<'_> {
             } else {
                 keys[self.rng.below(keys.len() as u64) as usize]
             };
-            self.m.entries[&k].0
+            let id = self.m.entries[&k].0;
+            // occasionally the snapshot's id carries a higher term than the stale *tail* entry at that
+            // index (Raft-legal only for the last entry: nothing of the old term may follow it)
+            if Some(id) == self.m.st.last && self.rng.chance(25) {
+                (id.0.saturating_add(1 + self.rng.below(2)), id.1)
+            } else {
+                id
+            }
         };
         if self.rng.chance(5) {
             // a no-op purge at or below the purged point
@@ -339,11 +346,9 @@ impl G<'_> {
                 let i = match self.rng.below(3) {
                     0 => hi.checked_add(2 + self.rng.below(5))?,
                     1 => {
+                        // at or below the purged index, including 0
                         let p = m.st.purged?;
-                        if p.1 == 0 {
-                            return None;
-                        }
-                        self.rng.range(1, p.1)
+                        self.rng.range(0, p.1)
                     }
                     _ => {
                         // below a first-append-at-nonzero-index log start, nothing purged
